@@ -608,7 +608,9 @@ def prepare_file_offset_table(data_file_path: str) -> Optional[int]:
     if not file_offset_table.is_valid():
         console.info("Preparing file offset table for [%s] ... " % data_file_path, end="", flush=True)
         line_number = 0
-        with file_offset_table:
+        # Build the table under a temporary name: a table cut short by a crash would be newer than the data file and thus "valid".
+        tmp_offset_table = FileOffsetTable(data_file_path, f"{file_offset_table.offset_table_path}.tmp", "wt")
+        with tmp_offset_table:
             with open(data_file_path, encoding="utf-8") as data_file:
                 while True:
                     line = data_file.readline()
@@ -616,7 +618,8 @@ def prepare_file_offset_table(data_file_path: str) -> Optional[int]:
                         break
                     line_number += 1
                     if line_number % 50000 == 0:
-                        file_offset_table.add_offset(line_number, data_file.tell())
+                        tmp_offset_table.add_offset(line_number, data_file.tell())
+        os.replace(tmp_offset_table.offset_table_path, file_offset_table.offset_table_path)
         console.println("[OK]")
         return line_number
     else:
